@@ -86,19 +86,30 @@ def validate_share(ctx, tracefile, leg):
             i -= 1
         wl = evs[i]
         sig = share_sig(ctx.prop, f)
+        grown = wl.get("phase") is not None
+        if grown:
+            # the store grew under one running handler (delete claims arriving after the handler had answered)
+            sig = sig.replace("/share-live/", "/share-grown/", 1)
         devs = re.findall(r'"(\w+)"', f[7])
         what = ("world %s (%s index): %s chain %s%s -> %s ; the property demands '%s' (share is %s, path is %s)%s" % (
             wl["name"], wl["state"], ev["method"], ev["chain"], " assemble=1" if ev["asm"] else "", ev["cls"], f[5], f[3], f[4],
             " ; explained by deviation %s" % ",".join(devs) if devs else ""))
-        replay = {"property": ctx.prop, "kind": "share", "signature": sig, "leg": leg, "states": [wl["state"]],
-                  "world": {"name": wl["name"], "items": wl["items"]},
+        full = wl["items"]
+        if grown:   # the replay needs the complete world: the last phase of this world's section
+            j = i
+            while j + 1 < len(evs) and not (evs[j + 1]["ev"] == "world" and evs[j + 1].get("phase") in (None, 0)):
+                j += 1
+                if evs[j]["ev"] == "world":
+                    full = evs[j]["items"]
+        replay = {"property": ctx.prop, "kind": "share", "signature": sig, "leg": leg, "states": ["grown" if grown else wl["state"]],
+                  "world": {"name": wl["name"], "items": full},
                   "reqs": [{"w": 1, "chain": ev["chain"], "method": ev["method"], "asm": ev["asm"], "served": ev["gserved"], "gen": ev["gen"]}]}
         found.append((sig, what, replay))
     nsec = sum(1 for e in evs if e["ev"] == "world")
     return found, nsec, len(evs) - nsec, evs
 
 
-def share_job(ctx, drv, tag, inp=None, random=None, states="live,reopened"):
+def share_job(ctx, drv, tag, inp=None, random=None, states="live,reopened,grown"):
     out = ctx.path("share_%s.ndjson" % tag)
     argv = [drv, "-mode", "share", "-secring", SECRING, "-out", out, "-states", states]
     if inp is not None:
